@@ -285,7 +285,8 @@ def specSOp (st : ScSt) (t : String) : ScSt × Exp :=
         | some v => if isStrTok v.raw then v.raw else "panic"
         | none => "s"), "C10/envelope-stale"⟩)
     | ["push"] | ["query"] => (st, ⟨if isNode then "ok" else "nons", "C10/front-push-query"⟩)
-    | ["json"] => (st, ⟨showSnapMap log, "C10/merge-wrong"⟩)
+    -- after `|`: what defect D16 would show instead (only used to name it)
+    | ["json"] => (st, ⟨showSnapMap log, "C10/merge-wrong|" ++ showSnapMap ((st.sp.altOf c).getD log)⟩)
     | ["keep", _] => (st, ⟨"nokeep", "C10/harness"⟩)
     | ["updraw", _] => (st, ⟨"ok", "C10/merge-wrong"⟩)
     | _ => (st, ⟨"bad-op", "C10/harness"⟩)
@@ -372,8 +373,12 @@ def cmpResults (exps : List Exp) (got : String) : Option (String × String) :=
   let rec go : List Exp → List String → Option (String × String)
     | [], [] => none
     | [], g :: _ => some ("C10/script-extra-result", g)
-    | e :: _, [] => some (e.sig, "missing result, wanted " ++ e.want)
-    | e :: es, g :: gs => if e.want == g then go es gs else some (e.sig, s!"wanted {e.want} got {g}")
+    | e :: _, [] => some ((e.sig.splitOn "|").head!, "missing result, wanted " ++ e.want)
+    | e :: es, g :: gs =>
+      if e.want == g then go es gs
+      else match e.sig.splitOn "|" with
+        | [sig, alt] => some (if alt == g then "C10/set-query-push-lost" else sig, s!"wanted {e.want} got {g}")
+        | _ => some (e.sig, s!"wanted {e.want} got {g}")
   go exps gs
 
 def viol (sp : Spec) (sig : String) (op obs why : String) : Spec × String :=
